@@ -2,6 +2,7 @@
 # pmt.sh [-j N] <patch:ID[,ID..]>...   parallel mutation testing WITHOUT touching /repo: each job gets its own scratch
 # worktree of /repo (removed afterwards), the patch applied there, and ./vcheck run with VERIF_REPO/VERIF_OUT pointing
 # at the scratch area.  One line per (patch, check): name, id, rc, first signature.
+ROOT="$(dirname "$(readlink -f "$0")")/.."; export ROOT
 J=4; [ "$1" = -j ] && { J=$2; shift 2; }
 job() {
   spec="$1"; P="$(readlink -f "${spec%%:*}")"; IDS="${spec##*:}"
@@ -9,7 +10,7 @@ job() {
   git -C /repo worktree add --detach "$W/wt" HEAD -q 2>/dev/null || { echo "$spec worktree failed"; rm -rf "$W"; return; }
   if git -C "$W/wt" apply "$P" 2>/dev/null; then
     for id in ${IDS//,/ }; do
-      out="$(VERIF_REPO="$W/wt" VERIF_OUT="$W/out" /verif/vcheck "$id" "${TIER:-quick}" 2>&1)"; rc=$?
+      out="$(VERIF_REPO="$W/wt" VERIF_OUT="$W/out" "$ROOT/vcheck" "$id" "${TIER:-quick}" 2>&1)"; rc=$?
       sig=$(echo "$out" | grep -m1 'scenario=' | cut -c1-160)
       he=$(echo "$out" | grep -m1 'HARNESS-ERROR' | cut -c1-160)
       echo "$(basename "$(dirname "$P")")/$(basename "$P") $id rc=$rc $sig $he"
